@@ -1,43 +1,69 @@
-(* Actions/LivenessCorr.v — correspondence entry point for the v1 lifecycle model of
-   Liveness.v: the end-to-end harness (a real host node mining through the proof window with
-   reorgs) records, per block of the best chain, what it contains about the contract, and
-   after every block the host's row; the model replays the schedule with [Liveness.step].
-   An [LInvalid] answer means the schedule violates a hypothesis of the liveness theorem
-   (consensus / fairness clause of [env_ok]) or reverts the formation block.  No proofs. *)
+(* Actions/LivenessCorr.v — correspondence entry points for the lifecycle models of
+   Liveness.v (v1) and Liveness2.v (v2).
+   Two harnesses feed them: the end-to-end one (a real host node mining through the proof
+   window with reorgs; v1) records per block of the best chain what it contains about the
+   contract and after every block the host's row; the store-level one (a real sqlite.Store
+   and contracts.Manager driven block by block with synthesized chain updates; v1 and v2,
+   including expiries, renewals, rejections and reverts of each) additionally records whether
+   ProcessActions handed a storage proof to the pool at that tip.  The model replays the
+   schedule with [Liveness.step] / [Liveness2.step2].
+   [LInvalid] means the schedule violates a hypothesis of the liveness theorem (consensus /
+   fairness clause of [env_ok]) or reverts the formation block.  No proofs. *)
 From HostdBase Require Import Base.
-From HostdActions Require Import Rows SqlSem Queries Model Proofs Liveness.
+From HostdActions Require Import Rows SqlSem Queries Model Proofs Liveness Liveness2.
 
-Inductive lop := LStart (p : params) | LMine (b : blk) | LRevert.
+Inductive lop :=
+| LStart (p : params) | LMine (b : blk) | LRevert
+| L2Start (p : params2) | L2Mine (b : blk2) | L2Revert.
 
-(* status, formation confirmed, resolution height recorded — or nothing observed at this step
-   (blocks inside a multi-block reorganisation) *)
-Inductive lobs := LNone | LInvalid | LCrashed | LRow (s : st1) (formed resolved : bool).
+Inductive lobs :=
+| LNone                                              (* nothing observed at this step *)
+| LInvalid | LCrashed
+| LRow (s : st1) (formed resolved : bool)            (* status, formation confirmed, resolution recorded *)
+| LRowS (s : st1) (formed resolved sent : bool)      (* ... and: a proof was broadcast at this tip *)
+| LRow2 (s : st2) (formed resolved : bool) (elem : option N) (sent : bool).
 
-Definition lstate := option (params * world).
+Inductive lstate := LS0 | LS1 (p : params) (w : world) | LS2 (p : params2) (w : world2).
 
 Definition lrow (w : world) : lobs :=
   match row w with
-  | Ok c => LRow (c1_contract_status c) (c1_formation_confirmed c) (is_some (c1_resolution_height c))
+  | Ok c => LRowS (c1_contract_status c) (c1_formation_confirmed c) (is_some (c1_resolution_height c))
+                  (hd false (sent w))
+  | _ => LCrashed
+  end.
+
+Definition lrow2 (w : world2) : lobs :=
+  match row2 w with
+  | Ok c => LRow2 (c2_contract_status c) (is_some (c2_confirmation_index c)) (is_some (c2_resolution_index c))
+                  (option_map e2_revision_number (c2_elem c)) (hd false (sent2 w))
   | _ => LCrashed
   end.
 
 Definition lstep (s : lstate) (o : lop) : lstate * lobs :=
   match o, s with
-  | LStart p, _ => (Some (p, init_world p), lrow (init_world p))
-  | _, None => (None, LInvalid)
-  | LMine b, Some (p, w) =>
-      match step p w (Mine b) with Some w' => (Some (p, w'), lrow w') | None => (None, LInvalid) end
-  | LRevert, Some (p, w) =>
-      match step p w Revert with Some w' => (Some (p, w'), lrow w') | None => (None, LInvalid) end
+  | LStart p, _ => (LS1 p (init_world p), lrow (init_world p))
+  | L2Start p, _ => (LS2 p (init_world2 p), lrow2 (init_world2 p))
+  | LMine b, LS1 p w =>
+      match step p w (Mine b) with Some w' => (LS1 p w', lrow w') | None => (LS0, LInvalid) end
+  | LRevert, LS1 p w =>
+      match step p w Revert with Some w' => (LS1 p w', lrow w') | None => (LS0, LInvalid) end
+  | L2Mine b, LS2 p w =>
+      match step2 p w (Mine2 b) with Some w' => (LS2 p w', lrow2 w') | None => (LS0, LInvalid) end
+  | L2Revert, LS2 p w =>
+      match step2 p w Revert2 with Some w' => (LS2 p w', lrow2 w') | None => (LS0, LInvalid) end
+  | _, _ => (LS0, LInvalid)
   end.
 
 Definition lobs_eqb (model seen : lobs) : bool :=
   match seen, model with
   | LNone, _ => true
   | LInvalid, LInvalid | LCrashed, LCrashed => true
-  | LRow s f r, LRow s' f' r' => st1_eqb s s' && Bool.eqb f f' && Bool.eqb r r'
+  | LRow s f r, LRowS s' f' r' _ => st1_eqb s s' && Bool.eqb f f' && Bool.eqb r r'
+  | LRowS s f r b, LRowS s' f' r' b' => st1_eqb s s' && Bool.eqb f f' && Bool.eqb r r' && Bool.eqb b b'
+  | LRow2 s f r e b, LRow2 s' f' r' e' b' =>
+      st2_eqb s s' && Bool.eqb f f' && Bool.eqb r r' && option_eqb N.eqb e e' && Bool.eqb b b'
   | _, _ => false
   end.
 
 Definition lcase := (N * list (lop * lobs))%type.
-Definition lcheck (cs : list lcase) := mismatches (None : lstate) lstep lobs_eqb cs.
+Definition lcheck (cs : list lcase) := mismatches LS0 lstep lobs_eqb cs.
